@@ -397,6 +397,12 @@ def run_shard(sh):
                             for cr in ('float', 'np.float64', 'arr1.float64'):
                                 for rt in ROUTES:
                                     judge_scalar(acc, fmt, rnd, 'saturate', d, cr, rt, 'C')
+                    # ONE array mixing a huge magnitude with ordinary inputs around the grid (ties included): every element by its own rule
+                    small = [qval(k, fmt) for k in (-10, -7, -6, -5, -3, -2, -1, 0, 1, 2, 3, 5, 6, 7, 10) if in_core(qval(k, fmt), fmt)]
+                    for mag in (mags[0], mags[len(mags) // 2], mags[-1]):
+                        for sgn in (1, -1):
+                            judge_array(acc, fmt, rnd, 'saturate', [_dy_of_float(sgn * mag)] + small, 'C')
+                            judge_array(acc, fmt, rnd, 'saturate', small[:4] + [_dy_of_float(sgn * mag)] + small[4:], 'C')
     elif part == 'D':
         run_complex(acc, sh)
     elif part == 'H':
